@@ -1,10 +1,10 @@
-import HdVerif.Proofs.SegFrames
+import HdVerif.Proofs.SegFrameLoop
 import Mathlib.Data.Finset.Card
 import Mathlib.Data.List.Dedup
-/-! Lemmas for the tiles a TILED_SPARSE segmentation stores (`Model/SegFrames.lean`, `tileFrames`): every frame is a tile
+/-! Lemmas for the tiles a TILED_SPARSE segmentation stores (`Model/SegFrameLoop.lean`, `tileFrames`): every frame is a tile
 of the grid at the grid's position, the dimension index values are strictly monotone in row / column / x / y / z. -/
-namespace HdVerif.SegTilesLemmas
-open HdVerif HdVerif.Gen HdVerif.SegGeom HdVerif.SegGeom.V3 HdVerif.SegFrames HdVerif.SegGeomLemmas HdVerif.SegFramesLemmas
+namespace HdVerif.SegTileFramesLemmas
+open HdVerif HdVerif.Gen HdVerif.SegGeom HdVerif.SegGeom.V3 HdVerif.SegFrameLoop HdVerif.SegGeomLemmas HdVerif.SegFrameLoopLemmas
 
 /-! ## `rankOf`: position among the sorted distinct values -/
 
@@ -149,4 +149,4 @@ theorem mem_tileFrames (origin rowCos colCos : V3) (psRow psCol : Rat) (R C tr t
   subst this
   refine ⟨hs, List.mem_of_getElem? hrc, hrc, h5.symm, h2, hk⟩
 
-end HdVerif.SegTilesLemmas
+end HdVerif.SegTileFramesLemmas
